@@ -55,9 +55,9 @@ func newExecuteUnit(id int, ctx *risc.Context, bu *btbBranchUnit, inBus *comp.Bu
 			return false
 		}
 		if eu.runner.SequenceID > eu.sequenceID {
-			if eu.isPendingMessages() {
-				panic("invalid state")
-			}
+			// An older instruction can still be waiting on the bus (assigned
+			// to another, busy core): the drain loop keeps cycling until it
+			// has been executed
 			eu.flush()
 			return true
 		}
